@@ -340,3 +340,22 @@ Example after_eof_hypotheses_satisfiable : exists s, Inv 0 s /\ rest s = [].
 Proof.
   destruct (init_inv repaired eq_refl BFile 4096 1 [] [] ltac:(lia)) as (s & _ & I & R). exists s. split; assumption.
 Qed.
+
+(* signals are invisible at the level of the transcript: a run in which read() calls are interrupted (any number of
+   times, anywhere -- also before the very first byte) and the same run without the interruptions agree with the same
+   specification transcript, report the same offsets, and return equal values for the exact operations *)
+Theorem interrupts_invisible : forall b P mb data chunks ops, 0 < P ->
+  exists tr1 tr2, transcript repaired b P mb data chunks ops = Some tr1 /\
+                  transcript repaired b P mb data (strip_interrupts chunks) ops = Some tr2 /\
+                  Forall2 obs_agree (spec_run (length data) ops data) tr1 /\
+                  Forall2 obs_agree (spec_run (length data) ops data) tr2 /\
+                  map snd tr1 = map snd tr2 /\
+                  (forallb exact_op ops = true -> map fst tr1 = map fst tr2).
+Proof.
+  intros b P mb data chunks ops HP.
+  destruct (transparent b b P mb mb data chunks (strip_interrupts chunks) ops HP) as (t1 & t2 & E1 & E2 & F1 & F2 & O).
+  exists t1, t2. repeat split; try assumption. intros Ex.
+  destruct (exact_ops_equal b P mb data chunks ops HP Ex) as (u1 & U1 & V1).
+  destruct (exact_ops_equal b P mb data (strip_interrupts chunks) ops HP Ex) as (u2 & U2 & V2).
+  rewrite E1 in U1. rewrite E2 in U2. inversion U1; inversion U2; subst. now rewrite V1, V2.
+Qed.
